@@ -397,6 +397,48 @@ func zzLongList(n int) Value {
 	return List(els)
 }
 
+// C02StringLengths: EVERY string length 0..200 (one solver-enumerated value, first and last byte
+// symbolic), alone and followed by another value in a list: documented layout, exact consumption,
+// identical re-encoding.
+func C02StringLengths() {
+	n := sym.Concrete(sym.Int("string-length", 0, 200))
+	b := make([]byte, n)
+	for i := range b {
+		b[i] = byte('a' + i%26)
+	}
+	if n > 0 {
+		b[0], b[n-1] = sym.U8("first"), sym.U8("last")
+	}
+	s := string(b)
+	var v Value = String(s)
+	var buf bytes.Buffer
+	sym.Assert(v.Write(&buf) == nil, "string-lengths/encode-ok")
+	sym.Assert(buf.Len() == 4+1+4+n, "string-lengths/encoded-length")
+	sym.Assert(sym.EqBytes(buf.Bytes(), zzCat(zzStr("s"), zzStr(s))), "string-lengths/documented-layout")
+	zzRoundTrip(List([]Value{String(s), Int(sym.I32("next"))}), "string-lengths")
+	sym.Reach("string-lengths-done")
+}
+
+// C02WideNested: an opaque map whose entry is a dynamic value holding a WIDE list of dynamic values
+// (70 of them), and an opaque struct holding such a map: counting limits on nested values must count
+// depth, not breadth.
+func C02WideNested() {
+	wide := zzCat(zzStr("[m]"), zzLE32(70))
+	for i := 0; i < 70; i++ {
+		wide = zzCat(wide, zzStr("i"), zzLE32(uint32(i)))
+	}
+	last := sym.U32("last-element")
+	wide = append(wide[:len(wide)-4], zzLE32(last)...)
+	var v Value
+	if sym.Bool("inside-a-struct") {
+		v = Opaque("(m)<Wrap,v>", zzCat(zzStr("{sm}"), zzLE32(1), zzStr("k"), wide))
+	} else {
+		v = Opaque("{sm}", zzCat(zzLE32(1), zzStr("k"), wide))
+	}
+	zzRoundTrip(v, "wide-nested")
+	sym.Reach("wide-nested-done")
+}
+
 // C02LongList: long lists of dynamic values (lengths around 32, 64 and 100: preallocation, depth and
 // chunking limits live there), also nested as the last element of another list: they round-trip.
 func C02LongList() {
